@@ -15,7 +15,7 @@ hold; a store that ends beyond X writes into the next row, the surroundings of a
 view or past the buffer: violation. A pointer or an owner that is not resolved is undecided."""
 import re
 
-from ..cfg import Dom
+from ..cfg import Dom, loop_blocks
 from ..sym import Sym, fmt, short
 from .loadwidth import type_size, _resolve_iter, _strip
 from .validators import subst as esubst
@@ -119,6 +119,8 @@ def canonical(ctx, e, ptr_bits, depth=0):
         return canonical(ctx, e[2], ptr_bits, depth + 1)
     if e[0] == "local":
         ds = [d for d in ctx.sym.defs.get(e[1], []) if d[3]]
+        if len(ds) >= 2 and len(ctx.sym.defs.get(e[1], [])) == len(ds):
+            return induction(ctx, e, ds, ptr_bits, depth)
         if len(ds) != 1 or len(ctx.sym.defs.get(e[1], [])) != 1:
             return None
         return canonical(ctx, ctx.sym.rvalue(ds[0][2], ds[0][0], (ds[0][0], ds[0][1])), ptr_bits, depth + 1)
@@ -162,6 +164,120 @@ def canonical(ctx, e, ptr_bits, depth=0):
     return None
 
 
+def _peel_adds(rv, e):
+    """rv = add(add(e, a), b) -> a + b (constants), None if it is not such a chain on e"""
+    total = 0
+    r = rv
+    for _ in range(16):
+        while r[0] == "cast":
+            r = r[2]
+        if r == e:
+            return total
+        if r[0] in ("call", "callat") and _name(r) in ("add", "offset") and len(_args(r)) == 2:
+            k = _strip(_args(r)[1])
+            if k[0] == "const" and isinstance(k[1], int) and k[1] >= 0:
+                total += k[1]
+                r = _args(r)[0]
+                continue
+        return None
+    return None
+
+
+def trip_count(ctx, header, body, loops):
+    """iterations of the loop (header, body) when it is driven by next() on an array IntoIter
+    or a constant range"""
+    inner = set()
+    for h2, b2 in loops.items():
+        if h2 != header and b2 < body:
+            inner |= b2
+    cands = [c for c in ctx.fn.calls() if c.bb in body and c.bb not in inner
+             and (c.method or short(c.name)) == "next" and c.args]
+    if len(cands) != 1:
+        return None
+    c = cands[0]
+    it = c.args[0]
+    if it[0] in ("m", "c") and it[1]:
+        ty = ctx.fn.local_ty(it[1][0]) or ""
+        # &mut IntoIter<T, K>
+        m = re.search(r"array::IntoIter<.*, (\d+)>", ty)
+        if m:
+            return int(m.group(1))
+    e = ctx.sym.operand(it, (c.bb, "term"))
+    for _ in range(6):
+        while e[0] == "cast":
+            e = e[2]
+        if e[0] == "local":
+            ty = ctx.fn.local_ty(e[1]) or ""
+            m = re.search(r"array::IntoIter<.*, (\d+)>", ty)
+            if m:
+                return int(m.group(1))
+            ds = ctx.sym.defs.get(e[1], [])
+            whole = [d for d in ds if d[3]]
+            if len(whole) != 1:
+                return None
+            e = ctx.sym.rvalue(whole[0][2], whole[0][0], (whole[0][0], whole[0][1]))
+            continue
+        if e[0] in ("call", "callat") and _name(e) in ("into_iter", "iter", "by_ref") and _args(e):
+            e = _args(e)[0]
+            continue
+        if e[0] == "ref":
+            e = e[1]
+            continue
+        break
+    if e[0] == "agg" and "Range" in str(e[2]) and len(e[4]) == 2:
+        lo, hi = _strip(e[4][0]), _strip(e[4][1])
+        if lo[0] == "const" and hi[0] == "const" and isinstance(lo[1], int) and isinstance(hi[1], int):
+            return max(hi[1] - lo[1], 0)
+    if e[0] in ("local", "param"):
+        m = re.match(r"^\[.+; (\d+)\]$", ctx.fn.local_ty(e[1]) or "")
+        if m:
+            return int(m.group(1))
+    return None
+
+
+def induction(ctx, e, ds, ptr_bits, depth):
+    """p = init; loops with known trip counts { store(p); p = p.add(k); ... }: at the start of
+    the last iteration p is init + (iterations - 1) * advance per iteration"""
+    init = None
+    steps = []
+    for d in ds:
+        rv = ctx.sym.rvalue(d[2], d[0], (d[0], d[1]))
+        c = _peel_adds(rv, e)
+        if c is not None and c > 0:
+            steps.append((d, c))
+        elif init is None:
+            init = (d, rv)
+        else:
+            return None
+    if init is None or not steps:
+        return None
+    if ctx.dom is None:
+        ctx.dom = Dom(ctx.fn)
+    loops = loop_blocks(ctx.fn, ctx.dom)
+    sblocks = {d[0] for d, _ in steps}
+    enclosing = [(h, body) for h, body in loops.items() if sblocks <= body and init[0][0] not in body]
+    if not enclosing:
+        return None
+    # every loop that contains a step must contain all of them (one advance per innermost iteration)
+    for h, body in loops.items():
+        if (sblocks & body) and not (sblocks <= body):
+            return None
+    total = 1
+    for h, body in enclosing:
+        k = trip_count(ctx, h, body, loops)
+        if not k:
+            return None
+        total *= k
+    adv = max(c for _, c in steps)
+    pt = pointee(ctx.fn.local_ty(e[1]))
+    sz = ty_size(pt, ptr_bits) if pt else None
+    base = canonical(ctx, init[1], ptr_bits, depth + 1)
+    if base is None or sz is None:
+        return None
+    X, es, idx, off = base
+    return (X, es, idx, off + (total - 1) * adv * sz)
+
+
 def owner_bytes(ctx, X, es, at, ptr_bits, depth=0):
     """bytes owned by the slice / array / reference expression X (None = not resolved),
     as ('ok', bytes, how) | ('param', index) | None"""
@@ -178,6 +294,15 @@ def owner_bytes(ctx, X, es, at, ptr_bits, depth=0):
             x = x[1]
         else:
             break
+    if x[0] == "field":
+        b = x[1]
+        while b[0] == "cast":
+            b = b[2]
+        if b[0] == "callat" and _name(b) in ("get_unchecked_mut", "index_mut"):
+            ty = re.sub(r"^&(?:'\w+ )?(?:mut )?", "", ctx.dest_ty(b) or "")
+            s = ty_size(ty, ptr_bits)
+            if s:
+                return ("ok", s, "the components of one pixel")
     if x[0] in ("local", "param"):
         ty = ctx.fn.local_ty(x[1])
         et, n = elem_of(ty)
@@ -260,6 +385,47 @@ def closure_owner(prog, f, param_expr, path, es):
     return None
 
 
+def pre_read_pointer(prog, f, e, ctx_of):
+    """f is the consumer closure of foreach_with_pre_reading(iter, producer, consumer) and `e`
+    a component of its argument: the same component of what the producer returns, as an
+    expression of the producer closure"""
+    x = e
+    while x[0] == "cast":
+        x = x[2]
+    k = None
+    if x[0] == "field" and isinstance(x[2], int):
+        k, x = x[2], x[1]
+    if not (x[0] == "param" and x[1] == 2):
+        return None
+    parent = prog.fns.get(f.d.get("parent"))
+    if parent is None:
+        return None
+    psym = Sym(parent)
+    for c in parent.calls():
+        if len(c.args) != 3:
+            continue
+        ops = [psym.operand(a, (c.bb, "term")) for a in c.args]
+        if not (ops[2][0] == "agg" and ops[2][1] == "closure" and ops[2][2] == f.id):
+            continue
+        if not (ops[1][0] == "agg" and ops[1][1] == "closure"):
+            continue
+        prod = prog.fns.get(ops[1][2])
+        if prod is None:
+            continue
+        pctx = ctx_of(prod)
+        ds = [d for d in pctx.sym.defs.get(0, []) if d[3]]
+        if len(ds) != 1:
+            return None
+        rv = pctx.sym.rvalue(ds[0][2], ds[0][0], (ds[0][0], ds[0][1]))
+        if k is not None:
+            if rv[0] == "agg" and rv[1] == "tuple" and k < len(rv[4]):
+                rv = rv[4][k]
+            else:
+                return None
+        return (pctx, rv, (ds[0][0], ds[0][1]))
+    return None
+
+
 def store_sites(prog, f, ptr_bits):
     """(where, name, pointer operand expr, width, at)"""
     sym = None
@@ -281,7 +447,7 @@ def store_sites(prog, f, ptr_bits):
         for j, st in enumerate(blk["s"]):
             if st[0] == "a" and len(st[1]) >= 2 and st[1][1] == "*" and \
                     (f.local_ty(st[1][0]) or "").startswith("*mut"):
-                out.append((st[3], "*ptr =", ["copy", [st[1][0]]], "pointee", (b, j), None))
+                out.append((st[3], "*ptr =", ["c", [st[1][0]]], "pointee", (b, j), None))
     return out
 
 
@@ -365,7 +531,7 @@ def check(rep, prog, rule, floor=60):
         for where, nm, op, w, at, call in sites:
             e = ctx.sym.operand(op, at)
             if w == "pointee":
-                pt = pointee(ctx.fn.local_ty(op[1][0]) if op[0] in ("copy", "move") and len(op[1]) == 1
+                pt = pointee(ctx.fn.local_ty(op[1][0]) if op[0] in ("c", "m") and len(op[1]) == 1
                              else ctx.ty_of(e))
                 w = ty_size(pt, ptr_bits) if pt else None
             n += 1
@@ -379,12 +545,20 @@ def check(rep, prog, rule, floor=60):
                 rep.unk(rule, key, where, "width of the store not known")
                 continue
             can = canonical(ctx, e, ptr_bits)
+            use_ctx = ctx
+            if can is None and f.kind == "closure":
+                alt = pre_read_pointer(prog, f, e, ctx_of)
+                if alt is not None:
+                    use_ctx, e2, at2 = alt
+                    can = canonical(use_ctx, e2, ptr_bits)
+                    if can is not None:
+                        at = at2
             if can is None:
                 und += 1
                 rep.unk(rule, key, where, "pointer not brought to the form as_mut_ptr(X) + offset")
                 continue
             X, es, idx, off = can
-            r = resolve(ctx, X, es, idx, off, at, 0)
+            r = resolve(use_ctx, X, es, idx, off, at, 0)
             if not r:
                 und += 1
                 rep.unk(rule, key, where, "owner of the pointer not resolved: %s" % fmt(X)[:80] if not
